@@ -3,7 +3,7 @@ CONSTANTS
  Pkgs = {"aa"}
  MaxRuns = 3
  Vers <- V3
- Mode = "text"
+ Mode = "store"
  MaxLinesPerPkg = 2
 VIEW View
 INVARIANT TypeOK
